@@ -77,6 +77,9 @@ func (am *Machine) handleStateDkgCommitsAwaitConfirmations(o *client.Operation) 
 
 	pid := -1
 	for _, r := range payload {
+		if r == nil {
+			return fmt.Errorf("malformed payload: empty entry")
+		}
 		pubkey := am.baseSuite.Point()
 		if err := pubkey.UnmarshalBinary(r.DkgPubKey); err != nil {
 			return fmt.Errorf("failed to unmarshal dkg pubkey: %w", err)
@@ -167,6 +170,9 @@ func (am *Machine) handleStateDkgDealsAwaitConfirmations(o *client.Operation) er
 	}
 
 	for _, entry := range payload {
+		if entry == nil {
+			return fmt.Errorf("malformed payload: empty entry")
+		}
 		var commitsBz [][]byte
 		if err = json.Unmarshal(entry.DkgCommit, &commitsBz); err != nil {
 			return fmt.Errorf("failed to unmarshal commits: %w", err)
@@ -249,6 +255,9 @@ func (am *Machine) handleStateDkgResponsesAwaitConfirmations(o *client.Operation
 	}
 
 	for _, entry := range payload {
+		if entry == nil {
+			return fmt.Errorf("malformed payload: empty entry")
+		}
 		//do not store deals from ourselves because of the hack above
 		if entry.ParticipantId == dkgInstance.ParticipantID {
 			continue
@@ -313,6 +322,9 @@ func (am *Machine) handleStateDkgMasterKeyAwaitConfirmations(o *client.Operation
 	}
 
 	for _, entry := range payload {
+		if entry == nil {
+			return fmt.Errorf("malformed payload: empty entry")
+		}
 		var entryResponses []*dkgPedersen.Response
 		if err = json.Unmarshal(entry.DkgResponse, &entryResponses); err != nil {
 			return fmt.Errorf("failed to unmarshal responses: %w", err)
